@@ -492,6 +492,18 @@ struct H
     std::string s = CNAME ":";
 #ifdef VF_INTERNALS
     pre(a->root, s);
+    // hidden bookkeeping that the tree alone determines in a correct implementation - and that a wrong one leaves stale:
+    // sentinel links, begin, size, spare-slot pool
+    {
+      int f = 0, b = 0;
+      for(auto* i = a->freeItem; i && f < 500; i = i->prev) ++f;
+      for(auto* k = a->blocks; k && b < 500; k = k->next) ++b;
+      bool prevLive = false, beginLive = false;
+      for(auto* i = a->root; i;) { if(i == a->endItem.prev) prevLive = true; i = i->right; }      // the back item is the rightmost node
+      for(auto* i = a->root; i;) { if(i == a->_begin.item) beginLive = true; i = i->left; }      // the front item is the leftmost node
+      s += vf::fmt("|n%d f%d b%d end.prev=%s begin=%s", (int)a->_size, f, b,
+                   !a->endItem.prev ? "null" : prevLive ? "rightmost-path" : "STALE", a->_begin.item == &a->endItem ? "end" : beginLive ? "leftmost-path" : "STALE");
+    }
 #else
     for(size_t i = 0; i < ref.size(); ++i) s += vf::fmt("%d,", ref[i].key);
 #endif
